@@ -418,10 +418,11 @@ class Dataset:
         copy_rankings: List[Ranking] = copy.deepcopy(self.rankings)
         all_elements: Set[Element] = set(self._mapping_element_id.keys())
 
-        for ranking in copy_rankings:
+        for id_ranking, ranking in enumerate(copy_rankings):
             missing_elements: Set[Element] = all_elements - ranking.domain
             if missing_elements:
-                ranking.buckets.append(missing_elements)
+                # a new Ranking, so that positions / domain / nb_elements take the added bucket into account
+                copy_rankings[id_ranking] = Ranking(ranking.buckets + [missing_elements])
 
         return copy_rankings
 
